@@ -34,6 +34,8 @@ def cut_classes(shape):
     if nk > 2:
         out.append([("knot", 1), ("open", 0, 0)])
     out.append(None)                                                                  # split(): the Bezier pieces
+    out.append([])                                                                    # split([]): no cut point besides the ends -> ONE piece, the curve itself
+    out.append([("knot", 0), ("knot", nk - 1)])                                       # only the ends: ignored -> one piece
     return out
 
 
@@ -64,7 +66,7 @@ def task_split(shape, rational):
         nn = node_names(nodes or [])
         ctx = H.new_ctx(shape, ["t"] + nn + pn + wn)
         H.positive(ctx, wn)
-        xs = setup_nodes(ctx, shape, nodes) if nodes else None
+        xs = setup_nodes(ctx, shape, nodes) if nodes is not None else None         # [] is a cut set of its own (no cut), None is split()
 
         def body(chk, ctx=ctx, xs=xs, nodes=nodes):
             U, ks = H.sym_vector(ctx, shape)
@@ -98,7 +100,7 @@ def task_split(shape, rational):
                     chk.exact("exact", [[pc.ctrlpoints, pc.weights] for pc in pieces])
             chk.add("operand-unchanged", same_state(before, snapshot(curve)), "the split curve keeps its knot vector, points and weights")
 
-        out += H.run_paths(ctx, fn, "S-sym", stag(shape, None, ",%s,cuts=%s" % ("rat" if rational else "pol", ntag(nodes) if nodes else "all-knots")),
+        out += H.run_paths(ctx, fn, "S-sym", stag(shape, None, ",%s,cuts=%s" % ("rat" if rational else "pol", ("none" if nodes == [] else ntag(nodes)) if nodes is not None else "all-knots")),
                            dict(kind="c07.split", shape=shape, nodes=nodes, rational=rational), body)
     return out
 
